@@ -33,6 +33,11 @@ def gen_tasks(tier, seed):
             tasks.append({**base, "kwargs": {"weight_type": "int"}})
             tasks.append({**base, "kwargs": {"weight_type": "int", "optimization_options": {"optimize_with_safe_sequences": False}}})
             tasks.append({**base, "kwargs": {"weight_type": "int", "optimization_options": {"use_min_gen_set_lowerbound": True}}})
+            # further flows for the min-gen-set lower bound (walks that take a loop several times, values <= source flow)
+            for _r in range(3):
+                wf2 = I.walk_flow(es, rng, weights=(1, 2, 4), max_walks=3)
+                if wf2 and max(wf2[0].values()) <= 8 and sum(wf2[0].values()) <= 30:
+                    tasks.append({**base, "edges": I.with_flow(es, wf2[0]), "kwargs": {"weight_type": "int", "optimization_options": {"use_min_gen_set_lowerbound": True}}})
             # subset constraint taken from one generating walk (so a decomposition satisfying it exists, possibly with more walks)
             w = rng.choice(walks)
             wes = list(zip(w[:-1], w[1:]))
